@@ -249,7 +249,16 @@ pub fn gen_cfg(prop: &str, seed: u64) -> RunCfg {
                 let c = g.rng.range(1, 5);
                 ops.extend(gen_history(&mut g, &mut world, c, &recreate));
             }
-            base_cfg(prop, "contract", seed, &mut g, vec![spec], ops)
+            let nn = spec.node_count();
+            let mut cfg = base_cfg(prop, "contract", seed, &mut g, vec![spec], ops);
+            // in a third of the runs one re-creation fails for an underlying reason: the deletion
+            // must persist ("until re-created")
+            let creations: Vec<usize> = cfg.ops.iter().enumerate().filter(|(_, o)| matches!(o, Op::CreateDir(_) | Op::Write { append: false, .. })).map(|(i, _)| i).collect();
+            if !creations.is_empty() && g.rng.pct(35) {
+                let kinds = ["Other", "PermissionDenied", "StorageFull"];
+                cfg.fault = Some(FaultPlan { op_index: creations[g.rng.below(creations.len())], k: g.rng.range(1, 14) as u64, sticky: false, kind: kinds[g.rng.below(3)].into(), nodes: if g.rng.pct(70) { u64::MAX } else { 1u64 << g.rng.below(nn) } });
+            }
+            cfg
         }
         "C03" | "C05" => {
             let pp = phys_pct_for(&mut g.rng);
